@@ -300,8 +300,19 @@ def _asarray(interp, x, dtype=None, copy=None, **kw):
     eng = _eng()
     if _all_concrete(x, dtype):
         return np.array(x, dtype=dtype, **kw) if copy is None else np.array(x, dtype=dtype, copy=copy, **kw)
+    if isinstance(x, SOpaque):
+        if dtype is None:
+            return x
+        src = dtype_name(getattr(x, "dtype", None) or "stored")
+        axiom("N-ELEMWISE (astype/asarray act on each event payload separately)")
+        r = SOpaque(elem_fn(f"cast_{src}_to_{dtype_name(dtype)}")(x.e))
+        return r
     a = as_arr(interp, x)
     kind = a.kind
+    if a.kind == "elem":
+        if dtype is None:
+            return a
+        return cast_elem_arr(interp, a, dtype)
     if dtype is not None:
         kind = _cast_kind(a, dtype)
     # np.array copies by default; np.asarray / copy=False returns the same object
@@ -331,6 +342,37 @@ def _cast_kind(a, dtype):
     if dt.kind == "f":
         return "F" if a.kind == "F" else "real"
     return a.kind
+
+
+from .sym import Elem, SOpaque   # noqa: E402
+
+_elem_fns = {}
+
+
+def elem_fn(name):
+    """uninterpreted elementwise function on opaque event payloads"""
+    if name not in _elem_fns:
+        _elem_fns[name] = z3.Function(name, Elem, Elem)
+    return _elem_fns[name]
+
+
+def dtype_name(dt):
+    try:
+        return np.dtype(dt).name
+    except TypeError:
+        return str(dt)
+
+
+def cast_elem_arr(interp, a, dtype):
+    src, dst = dtype_name(a.dtype) if a.dtype is not None else "unknown", dtype_name(dtype)
+    if src == dst:
+        return a
+    axiom("N-ELEMWISE (astype/asarray act on each event payload separately)")
+    fn = elem_fn(f"cast_{src}_to_{dst}")
+    r = arr_map(interp, a, lambda e: fn(e), "elem")
+    r.dtype = np.dtype(dtype)
+    r.item_shape = getattr(a, "item_shape", ())
+    return r
 
 
 def cast_arr(interp, a, kind, dtype=None):
@@ -557,3 +599,53 @@ def _m_tolist(interp, a):
     r.is_list = True
     r.birth = interp.ctx.stamp
     return r
+
+
+@model(np.prod)
+def _prod(interp, x, *a, **k):
+    eng = _eng()
+    if _all_concrete(x):
+        return np.prod(x, *a, **k)
+    p = interp.iter_plan(x)
+    if p[0] != "concrete":
+        raise eng.Unsupported("np.prod of symbolic-length sequence")
+    r = 1
+    for v in p[1]:
+        r = models.binop(interp, "Mult", r, v)
+    if isinstance(r, SInt):
+        r = SInt(r.e, dtype="int64")
+    return r
+
+
+@model(np.floor)
+def _floor(interp, x):
+    eng = _eng()
+    if _all_concrete(x):
+        return np.floor(x)
+    if isinstance(x, SInt):
+        return wrap(z3.ToReal(x.e))
+    if isinstance(x, SReal):
+        return wrap(z3.ToReal(z3.ToInt(x.e)))      # z3 ToInt is floor
+    raise eng.Unsupported("np.floor of " + type(x).__name__)
+
+
+@model(np.ceil)
+def _ceil(interp, x):
+    eng = _eng()
+    if _all_concrete(x):
+        return np.ceil(x)
+    if isinstance(x, SInt):
+        return wrap(z3.ToReal(x.e))
+    if isinstance(x, SReal):
+        return wrap(z3.ToReal(-z3.ToInt(-x.e)))
+    raise eng.Unsupported("np.ceil of " + type(x).__name__)
+
+
+@model(np.atleast_2d)
+def _atleast_2d(interp, x):
+    eng = _eng()
+    if _all_concrete(x):
+        return np.atleast_2d(x)
+    if isinstance(x, SArr) and len(getattr(x, "item_shape", ())) >= 1:
+        return x
+    raise eng.Unsupported("np.atleast_2d of a 1-D symbolic array")
